@@ -20,7 +20,7 @@ CONSTANTS Threads,     \* thread ids
           NTop,        \* top-level schedule calls per thread
           Nest,        \* TRUE: the first action each thread executes schedules one nested immediate item
           Delays,      \* set of relative delays a top-level call may use (0 = immediate)
-          MaxClock,
+          MaxClock,    \* the clock ticks freely up to here, and further while an item is not yet due
           Fixed
 
 (* --algorithm TrampolineImpl {
@@ -118,7 +118,7 @@ CONSTANTS Threads,     \* thread ids
   fair process (Clock = 0)
   {
   tick:
-    while (clock < MaxClock) { clock := clock + 1; };
+    while (TRUE) { await clock < MaxClock \/ \E i \in DOMAIN due : due[i] > clock; clock := clock + 1; };
   }
 } *)
 \* BEGIN TRANSLATION
@@ -336,31 +336,22 @@ t_loop(self) == /\ pc[self] = "t_loop"
 T(self) == t_loop(self)
 
 tick == /\ pc[0] = "tick"
-        /\ IF clock < MaxClock
-              THEN /\ clock' = clock + 1
-                   /\ pc' = [pc EXCEPT ![0] = "tick"]
-              ELSE /\ pc' = [pc EXCEPT ![0] = "Done"]
-                   /\ clock' = clock
+        /\ clock < MaxClock \/ \E i \in DOMAIN due : due[i] > clock
+        /\ clock' = clock + 1
+        /\ pc' = [pc EXCEPT ![0] = "tick"]
         /\ UNCHANGED << idle, queue, seq, due, enqAt, waiting, notified, 
                         active, ran, made, nestLeft, mine, stack, delay, ready, 
                         cur, todo >>
 
 Clock == tick
 
-(* Allow infinite stuttering to prevent deadlock on termination. *)
-Terminating == /\ \A self \in ProcSet: pc[self] = "Done"
-               /\ UNCHANGED vars
-
 Next == Clock
            \/ (\E self \in ProcSet: run(self) \/ drain(self))
            \/ (\E self \in Threads: T(self))
-           \/ Terminating
 
 Spec == /\ Init /\ [][Next]_vars
         /\ \A self \in Threads : WF_vars(T(self)) /\ WF_vars(run(self)) /\ WF_vars(drain(self))
         /\ WF_vars(Clock)
-
-Termination == <>(\A self \in ProcSet: pc[self] = "Done")
 
 \* END TRANSLATION
 
